@@ -189,6 +189,7 @@ func ruleC10(w *World, r *Report) {
 		"R10.7 stop sequence: cancel → (every Serve sees ctx.Done → Shutdown) → node stops accepting → join of all connections bounded by a timer → datapath Exit → close(done); Stop waits on Done after cancelling; R10.8 session records are added only where teardown cannot miss them."
 	r.Explanation += " R10.10 the reader goroutine — the only place a read time-out is noticed — ends only on time-out or closed socket."
 	r.Explanation += " R10.11 = C06 R06.7 (distinct SEID sequences per association)."
+	r.Explanation += " R10.12 = C12 R12.5 (hbReset is signalled without blocking); R10.13 http.Server.Shutdown gets a context with a time-out; R10.14 handleNewPeers calls NewPFCPConn only behind pConns.Load not found."
 	r.NotDecided = "exactly-once under every interleaving beyond these typestate/ordering rules; bounded time beyond 'every stop-path wait has a timer alternative' (SendMsgToUPF's own time-outs are trusted); that conn.RemoteAddr().String() equals the key string used at creation (both are String() of the peer's UDP address)"
 
 	ruleC10SelfTest(r)
